@@ -374,6 +374,43 @@ pub fn run(run: &Arc<Run>) {
     int_sweep!(u64, "u64", num_u64);
     int_sweep!(u128, "u128", num_u128);
     int_sweep!(usize, "usize", num_usize);
+    // ranges that have been (partly) iterated before the conversion: the interval is that of the bounds
+    // the range holds at that moment (`start()`, `end()`), whatever the iteration state
+    {
+        let mut l = run.local();
+        for a in -3i32..=4 {
+            for b in -3i32..=4 {
+                for steps in 0..=9usize {
+                    let mut r = a..=b;
+                    for _ in 0..steps {
+                        if r.next().is_none() {
+                            break;
+                        }
+                    }
+                    let (s0, e0) = (*r.start(), *r.end());
+                    let want = Interval::new(s0, e0);
+                    let got = Interval::try_from(r.clone());
+                    l.eval();
+                    l.count("iterated range converted");
+                    l.nontrivial(mix(&[a as u64, b as u64, steps as u64, 0x1417]));
+                    let same = match (&got, &want) {
+                        (Ok(x), Ok(y)) => x == y,
+                        (Err(x), Err(y)) => err_name(x) == err_name(y),
+                        _ => false,
+                    };
+                    if !same {
+                        l.violation(
+                            format!("TryFrom<RangeInclusive>|iterated-range|{}", if r.is_empty() && s0 <= e0 { "exhausted" } else { "partly-consumed-or-fresh" }),
+                            "converting a range that has been iterated does not give the interval of the bounds it holds".to_string(),
+                            json!({"ty": "i32-iterated-range", "a": a, "b": b}),
+                            json!({"range": format!("{}..={}", a, b), "steps_taken": steps, "start()": s0, "end()": e0, "observed": format!("{:?}", got.as_ref().map_err(err_name)), "Interval::new(start, end)": format!("{:?}", want.as_ref().map_err(err_name))}),
+                        );
+                    }
+                }
+            }
+        }
+        run.absorb(l);
+    }
     sweep::<f64>(run, "f64", vec![f64::NEG_INFINITY, -1.0, -0.0, 0.0, 5e-324, 1.0, 1e300, f64::INFINITY], &|c, l, a, b| {
         if (a.is_finite() || b.is_finite()) || a.signum() != b.signum() {
             num_f64(c, l, *a, *b)
@@ -392,6 +429,7 @@ pub fn run(run: &Arc<Run>) {
     }
     let mut req: Vec<String> = vec![
         "constructor accepts ordered bounds".into(),
+        "iterated range converted".into(),
         "constructor rejects inverted bounds (InvalidBounds)".into(),
         "(None,None) -> EmptyInterval".into(),
         "degenerate two-sided".into(),
